@@ -1,5 +1,7 @@
 (* C16 -- from the callback order of the registry to the written files, and the files against the property. *)
 From Coq Require Import NArith Bool List Lia Arith.
+From Coq Require String.
+Import String.StringSyntax.
 From CppUVerif Require Import lib.Str gen.Gen_C16 C16_Events C16_Model C16_Escape C16_Parse.
 Import ListNotations.
 Local Open Scope N_scope.
@@ -58,71 +60,181 @@ Proof.
   - destruct (bytes_eqb (t_group t) (t_group n)); cbn in *; rewrite IH; reflexivity.
 Qed.
 
+(* ================= the loop with the outside calls: same callbacks, same segments ================= *)
+Fixpoint je_only (l : list jev) : list ev :=
+  match l with [] => [] | JE e :: r => e :: je_only r | JOp _ :: r => je_only r end.
+Lemma je_only_app a b : je_only (a ++ b) = je_only a ++ je_only b.
+Proof. induction a as [|[e|o] a IH]; cbn [app je_only]; rewrite ?IH; reflexivity. Qed.
+Lemma je_only_JE l : je_only (map JE l) = l.
+Proof. induction l as [|e l IH]; cbn [map je_only]; rewrite ?IH; reflexivity. Qed.
+Lemma je_only_JOp l : je_only (map JOp l) = [].
+Proof. induction l as [|e l IH]; cbn [map je_only]; rewrite ?IH; reflexivity. Qed.
+(* dropping the outside calls from the extended loop leaves the registry loop of C16_Events *)
+Lemma oreg_loop_callbacks ts : forall b, je_only (oreg_loop b ts) = reg_loop b (map snd ts).
+Proof.
+  induction ts as [|[ops t] rest IH]; intro b; [reflexivity|].
+  cbn [oreg_loop reg_loop map snd]. rewrite !je_only_app, je_only_JOp, je_only_JE. cbn [app].
+  f_equal; [destruct b; reflexivity|]. f_equal.
+  destruct (end_of_group t (map snd rest)); cbn [je_only]; rewrite IH; reflexivity.
+Qed.
+
+Lemma osegments_map ts : map (map snd) (osegments ts) = segments (map snd ts).
+Proof.
+  induction ts as [|t rest IH]; [reflexivity|].
+  cbn [osegments map segments]. rewrite <- IH.
+  destruct (osegments rest) as [|[|n g] gs]; cbn [map]; try reflexivity.
+  destruct (bytes_eqb (t_group (snd t)) (t_group (snd n))); reflexivity.
+Qed.
+
+Definition otest_events (x : otest) : list jev := map JOp (fst x) ++ map JE (test_events (snd x)).
+Definition oseg_events (g : list otest) : list jev :=
+  match g with x :: _ => JE (EGroupStart (snd x)) :: flat_map otest_events g ++ [JE EGroupEnd] | [] => [] end.
+
+Lemma osegments_head n rest : exists g gs, osegments (n :: rest) = (n :: g) :: gs.
+Proof.
+  cbn [osegments]. destruct (osegments rest) as [|[|m g] gs].
+  - exists [], []. reflexivity.
+  - exists [], []. reflexivity.
+  - destruct (bytes_eqb (t_group (snd n)) (t_group (snd m))); eauto.
+Qed.
+Lemma oreg_loop_flag x rest : oreg_loop true (x :: rest) = JE (EGroupStart (snd x)) :: oreg_loop false (x :: rest).
+Proof. destruct x. reflexivity. Qed.
+Lemma oreg_loop_cons x rest :
+  oreg_loop false (x :: rest) = otest_events x ++ (if end_of_group (snd x) (map snd rest) then JE EGroupEnd :: oreg_loop true rest else oreg_loop false rest).
+Proof. destruct x as [ops t]. unfold otest_events. cbn [oreg_loop fst snd app]. rewrite <- app_assoc. reflexivity. Qed.
+Lemma oreg_loop_segments ts : oreg_loop true ts = flat_map oseg_events (osegments ts).
+Proof.
+  induction ts as [|t rest IH]; [reflexivity|].
+  rewrite oreg_loop_flag, oreg_loop_cons.
+  destruct rest as [|n rest'].
+  - cbn. rewrite !app_nil_r. reflexivity.
+  - destruct (osegments_head n rest') as [g [gs Eg]].
+    remember (n :: rest') as r eqn:Er.
+    cbn [osegments]. rewrite Eg in *.
+    assert (IH' : oreg_loop false r = flat_map otest_events (n :: g) ++ [JE EGroupEnd] ++ flat_map oseg_events gs).
+    { rewrite Er in *. rewrite oreg_loop_flag in IH. remember (oreg_loop false (n :: rest')) as X eqn:EX.
+      cbn [flat_map oseg_events app] in IH. injection IH as IH. rewrite IH. cbn [flat_map]. rewrite <- !app_assoc. reflexivity. }
+    replace (end_of_group (snd t) (map snd r)) with (negb (bytes_eqb (t_group (snd t)) (t_group (snd n)))) by (rewrite Er; reflexivity).
+    destruct (bytes_eqb (t_group (snd t)) (t_group (snd n))); cbn [negb].
+    + rewrite IH'. cbn [flat_map oseg_events app]. rewrite <- !app_assoc. reflexivity.
+    + rewrite IH. cbn [flat_map oseg_events app]. rewrite !app_nil_r, <- !app_assoc. reflexivity.
+Qed.
+
+Lemma osegments_wf ts : Forall (fun g => g <> [] /\ same_group (map snd g)) (osegments ts).
+Proof.
+  induction ts as [|t rest IH]; [constructor|].
+  cbn [osegments]. destruct (osegments rest) as [|[|n g] gs] eqn:E.
+  - repeat constructor. discriminate.
+  - repeat constructor. discriminate.
+  - inversion IH as [|? ? [_ Hs] Hr]; subst.
+    destruct (bytes_eqb (t_group (snd t)) (t_group (snd n))) eqn:Et.
+    + constructor; [|exact Hr]. split; [discriminate|].
+      apply bytes_eqb_eq in Et. cbn [map]. constructor; [reflexivity|].
+      unfold same_group in *. cbn [map group_name] in *. rewrite Et. exact Hs.
+    + constructor; [|exact IH]. split; [discriminate|]. constructor; [reflexivity | constructor].
+Qed.
+Lemma osegments_concat ts : concat (osegments ts) = ts.
+Proof.
+  induction ts as [|t rest IH]; [reflexivity|].
+  cbn [osegments]. destruct (osegments rest) as [|[|n g] gs] eqn:E.
+  - cbn in *. subst. reflexivity.
+  - pose proof (osegments_wf rest) as W. rewrite E in W. inversion W as [|? ? [Hne _] _]. contradiction.
+  - destruct (bytes_eqb (t_group (snd t)) (t_group (snd n))); cbn in *; rewrite IH; reflexivity.
+Qed.
+
+(* the package after outside calls, and the names they were answered with *)
+Lemma ops_pkg_app a : forall P b, ops_pkg P (a ++ b) = ops_pkg (ops_pkg P a) b.
+Proof. induction a as [|[p|q] a IH]; intros P b; cbn [app ops_pkg]; auto. Qed.
+Lemma ops_names_app a : forall P b, ops_names P (a ++ b) = ops_names P a ++ ops_names (ops_pkg P a) b.
+Proof. induction a as [|[p|q] a IH]; intros P b; cbn [app ops_pkg ops_names]; rewrite ?IH; reflexivity. Qed.
+
 (* ================= the writer's state after the callbacks of one segment ================= *)
 Section WriterFacts.
 Variable esc : bytes -> seg.
-Variable pkg : bytes.
-Notation jstep := (junit_step esc pkg).
+Notation jstep0 := (junit_step esc).
+Notation jstepx := (jstep esc).
 
-Definition jmk (NS : list jnode) (c f : N) (g o : bytes) (F : list (bytes * bytes)) : jstate :=
-  {| j_nodes := NS; j_testCount := c; j_failureCount := f; j_group := g; j_stdout := o; j_files := F |}.
+Definition jmk (NS : list jnode) (c f : N) (g o : bytes) (F : list (bytes * bytes)) (P : bytes) (Nm : list bytes) : jstate :=
+  {| j_nodes := NS; j_testCount := c; j_failureCount := f; j_group := g; j_stdout := o; j_files := F; j_pkg := P; j_names := Nm |}.
 Definition nmk (t : test) (fl : option (bytes * N * bytes)) (ch : N) : jnode :=
   {| n_name := t_name t; n_file := t_file t; n_line := t_line t; n_ignored := t_ignored t; n_failure := fl; n_checks := ch |}.
 Definition or_first (a : option (bytes * N * bytes)) (b : option (bytes * N * bytes)) := match a with Some _ => a | None => b end.
 Definition newfail (a b : option (bytes * N * bytes)) : N := match a, b with None, Some _ => 1 | _, _ => 0 end.
 
-Lemma body_fold t b : forall NS c f g o F fl ch,
-  fold_left jstep (fst (body_events t b)) (jmk (nmk t fl ch :: NS) c f g o F)
-  = jmk (nmk t (or_first fl (first_failure b)) ch :: NS) c (f + newfail fl (first_failure b)) g (o ++ body_printed b) F.
+Lemma body_fold t b : forall NS c f g o F P Nm fl ch,
+  fold_left jstep0 (fst (body_events t b)) (jmk (nmk t fl ch :: NS) c f g o F P Nm)
+  = jmk (nmk t (or_first fl (first_failure b)) ch :: NS) c (f + newfail fl (first_failure b)) g (o ++ body_printed b) F P Nm.
 Proof.
-  induction b as [|s b IH]; intros NS c f g o F fl ch.
+  induction b as [|s b IH]; intros NS c f g o F P Nm fl ch.
   - cbn [body_events fst fold_left first_failure body_printed]. rewrite app_nil_r.
     destruct fl; cbn [or_first newfail]; rewrite N.add_0_r; reflexivity.
   - destruct s as [x | fi l m | fi l m]; cbn [body_events].
     + destruct (body_events t b) as [e k] eqn:E. cbn [fst fold_left]. cbn [fst] in IH.
-      change (jstep (jmk (nmk t fl ch :: NS) c f g o F) (EPrint x)) with (jmk (nmk t fl ch :: NS) c f g (o ++ x) F).
+      change (jstep0 (jmk (nmk t fl ch :: NS) c f g o F P Nm) (EPrint x)) with (jmk (nmk t fl ch :: NS) c f g (o ++ x) F P Nm).
       rewrite IH. cbn [first_failure body_printed]. rewrite app_assoc. reflexivity.
     + destruct (body_events t b) as [e k] eqn:E. cbn [fst fold_left]. cbn [fst] in IH.
       destruct fl as [x|].
-      * change (jstep (jmk (nmk t (Some x) ch :: NS) c f g o F) (EFailure t fi l m)) with (jmk (nmk t (Some x) ch :: NS) c f g o F).
+      * change (jstep0 (jmk (nmk t (Some x) ch :: NS) c f g o F P Nm) (EFailure t fi l m)) with (jmk (nmk t (Some x) ch :: NS) c f g o F P Nm).
         rewrite IH. cbn [first_failure body_printed or_first newfail]. reflexivity.
-      * change (jstep (jmk (nmk t None ch :: NS) c f g o F) (EFailure t fi l m)) with (jmk (nmk t (Some (fi, l, m)) ch :: NS) c (f + 1) g o F).
+      * change (jstep0 (jmk (nmk t None ch :: NS) c f g o F P Nm) (EFailure t fi l m)) with (jmk (nmk t (Some (fi, l, m)) ch :: NS) c (f + 1) g o F P Nm).
         rewrite IH. cbn [first_failure body_printed or_first newfail]. rewrite N.add_0_r. reflexivity.
     + cbn [fst fold_left first_failure body_printed]. rewrite app_nil_r.
       destruct fl as [x|]; cbn [or_first newfail]; [rewrite N.add_0_r|]; reflexivity.
 Qed.
 
 Definition failed_n (t : test) : N := if test_failed t then 1 else 0.
-Lemma test_fold t NS c f g o F :
-  fold_left jstep (test_events t) (jmk NS c f g o F)
-  = jmk (jnode_of t :: NS) (c + 1) (f + failed_n t) (t_group t) (o ++ test_printed t) F.
+Lemma test_fold t NS c f g o F P Nm :
+  fold_left jstep0 (test_events t) (jmk NS c f g o F P Nm)
+  = jmk (jnode_of t :: NS) (c + 1) (f + failed_n t) (t_group t) (o ++ test_printed t) F P Nm.
 Proof.
   unfold test_events, jnode_of, failed_n, test_failed, test_failure, test_printed. destruct (t_ignored t) eqn:Ei.
   - cbn. rewrite Ei, app_nil_r, N.add_0_r. reflexivity.
   - destruct (body_events t (t_body t)) as [e k] eqn:E.
     cbn [fold_left]. rewrite fold_left_app.
-    change (jstep (jmk NS c f g o F) (ETestStart t)) with (jmk (nmk t None 0 :: NS) (c + 1) f (t_group t) o F).
-    pose proof (body_fold t (t_body t) NS (c + 1) f (t_group t) o F None 0) as X. rewrite E in X. cbn [fst] in X. rewrite X.
+    change (jstep0 (jmk NS c f g o F P Nm) (ETestStart t)) with (jmk (nmk t None 0 :: NS) (c + 1) f (t_group t) o F P Nm).
+    pose proof (body_fold t (t_body t) NS (c + 1) f (t_group t) o F P Nm None 0) as X. rewrite E in X. cbn [fst] in X. rewrite X.
     cbn [fold_left or_first newfail snd]. unfold nmk. cbn. rewrite Ei.
     destruct (first_failure (t_body t)); reflexivity.
 Qed.
 
-Definition last_gn (g : list test) (gn : bytes) : bytes := match rev g with t :: _ => t_group t | [] => gn end.
-Lemma tests_fold g : forall NS c f gn o F,
-  fold_left jstep (flat_map test_events g) (jmk NS c f gn o F)
-  = jmk (rev (map jnode_of g) ++ NS) (c + N.of_nat (length g)) (f + N.of_nat (length (filter test_failed g)))
-        (last_gn g gn) (o ++ tests_printed g) F.
+(* outside calls: setPackageName stores, createFileName answers from the stored package; nothing else moves *)
+Lemma fold_JE l : forall st, fold_left jstepx (map JE l) st = fold_left jstep0 l st.
+Proof. induction l as [|e l IH]; intro st; [reflexivity|]. cbn [map fold_left jstep]. apply IH. Qed.
+Lemma op_fold ops : forall NS c f g o F P Nm,
+  fold_left jstepx (map JOp ops) (jmk NS c f g o F P Nm) = jmk NS c f g o F (ops_pkg P ops) (rev (ops_names P ops) ++ Nm).
 Proof.
-  induction g as [|t g IH]; intros NS c f gn o F.
+  induction ops as [|[p|q] ops IH]; intros NS c f g o F P Nm; cbn [map fold_left].
+  - reflexivity.
+  - change (jstepx (jmk NS c f g o F P Nm) (JOp (OSetPkg p))) with (jmk NS c f g o F p Nm). rewrite IH. reflexivity.
+  - change (jstepx (jmk NS c f g o F P Nm) (JOp (OFileName q))) with (jmk NS c f g o F P (createFileName P q :: Nm)).
+    rewrite IH, createFileName_spec. cbn [ops_pkg ops_names rev]. rewrite <- app_assoc. reflexivity.
+Qed.
+Lemma otest_fold x NS c f g o F P Nm :
+  fold_left jstepx (otest_events x) (jmk NS c f g o F P Nm)
+  = jmk (jnode_of (snd x) :: NS) (c + 1) (f + failed_n (snd x)) (t_group (snd x)) (o ++ test_printed (snd x)) F
+        (ops_pkg P (fst x)) (rev (ops_names P (fst x)) ++ Nm).
+Proof. unfold otest_events. rewrite fold_left_app, op_fold, fold_JE, test_fold. reflexivity. Qed.
+
+Definition last_gn (g : list test) (gn : bytes) : bytes := match rev g with t :: _ => t_group t | [] => gn end.
+Lemma tests_fold g : forall NS c f gn o F P Nm,
+  fold_left jstepx (flat_map otest_events g) (jmk NS c f gn o F P Nm)
+  = jmk (rev (map jnode_of (map snd g)) ++ NS) (c + N.of_nat (length (map snd g)))
+        (f + N.of_nat (length (filter test_failed (map snd g))))
+        (last_gn (map snd g) gn) (o ++ tests_printed (map snd g)) F
+        (ops_pkg P (flat_map fst g)) (rev (ops_names P (flat_map fst g)) ++ Nm).
+Proof.
+  induction g as [|x g IH]; intros NS c f gn o F P Nm.
   - cbn. rewrite app_nil_r, !N.add_0_r. reflexivity.
-  - cbn [flat_map]. rewrite fold_left_app, test_fold, IH.
+  - cbn [flat_map]. rewrite fold_left_app, otest_fold, IH.
     unfold tests_printed. cbn [flat_map map rev length filter]. unfold failed_n.
     f_equal.
     + rewrite <- app_assoc. reflexivity.
     + lia.
-    + destruct (test_failed t); cbn [length]; lia.
-    + unfold last_gn. cbn [rev]. destruct (rev g) eqn:E; reflexivity.
+    + destruct (test_failed (snd x)); cbn [length]; lia.
+    + unfold last_gn. cbn [rev]. destruct (rev (map snd g)) eqn:E; reflexivity.
     + rewrite app_assoc. reflexivity.
+    + rewrite ops_pkg_app. reflexivity.
+    + rewrite ops_names_app, rev_app_distr, app_assoc. reflexivity.
 Qed.
 
 Lemma last_group g gn : g <> [] -> same_group g -> last_gn g gn = group_name g.
@@ -132,41 +244,65 @@ Proof.
   - unfold same_group in Hs. rewrite Forall_forall in Hs. apply Hs. apply in_rev. rewrite E. left. reflexivity.
 Qed.
 
-(* files written for a list of segments, `printed` = text printed before the first of them *)
-Fixpoint group_files (gs : list (list test)) (printed : bytes) : list (bytes * bytes) :=
+(* files written for a list of segments: `pkg` = package when the first of them starts, `printed` = text printed before;
+   each file is named after, and written with, the package in force when its group ends *)
+Definition group_pkg (pkg : bytes) (g : list otest) : bytes := ops_pkg pkg (flat_map fst g).
+Fixpoint group_files (pkg : bytes) (gs : list (list otest)) (printed : bytes) : list (bytes * bytes) :=
   match gs with
   | [] => []
-  | g :: gs' => (createFileName pkg (group_name g), write_group esc pkg (group_state g printed [])) :: group_files gs' (printed ++ tests_printed g)
+  | g :: gs' =>
+      (createFileName (group_pkg pkg g) (group_name (map snd g)), write_group esc (group_pkg pkg g) (group_state (map snd g) printed []))
+      :: group_files (group_pkg pkg g) gs' (printed ++ tests_printed (map snd g))
+  end.
+Definition groups_pkg (pkg : bytes) (gs : list (list otest)) : bytes := fold_left group_pkg gs pkg.
+Fixpoint group_names (pkg : bytes) (gs : list (list otest)) : list bytes :=
+  match gs with
+  | [] => []
+  | g :: gs' => ops_names pkg (flat_map fst g) ++ group_names (group_pkg pkg g) gs'
   end.
 
-Lemma seg_fold g printed F : g <> [] -> same_group g ->
-  fold_left jstep (seg_events g) (jmk [] 0 0 [] printed F)
-  = jmk [] 0 0 [] (printed ++ tests_printed g) ((createFileName pkg (group_name g), write_group esc pkg (group_state g printed [])) :: F).
+Lemma seg_fold g printed F P Nm : g <> [] -> same_group (map snd g) ->
+  fold_left jstepx (oseg_events g) (jmk [] 0 0 [] printed F P Nm)
+  = jmk [] 0 0 [] (printed ++ tests_printed (map snd g))
+        ((createFileName (group_pkg P g) (group_name (map snd g)), write_group esc (group_pkg P g) (group_state (map snd g) printed [])) :: F)
+        (group_pkg P g) (rev (ops_names P (flat_map fst g)) ++ Nm).
 Proof.
   intros Hne Hs. destruct g as [|t g']; [contradiction|].
-  unfold seg_events.
-  change (fold_left jstep (EGroupStart t :: flat_map test_events (t :: g') ++ [EGroupEnd]) (jmk [] 0 0 [] printed F))
-    with (fold_left jstep (flat_map test_events (t :: g') ++ [EGroupEnd]) (jmk [] 0 0 [] printed F)).
-  rewrite fold_left_app, tests_fold, (last_group (t :: g') [] Hne Hs), app_nil_r, !N.add_0_l.
+  unfold oseg_events.
+  change (fold_left jstepx (JE (EGroupStart (snd t)) :: flat_map otest_events (t :: g') ++ [JE EGroupEnd]) (jmk [] 0 0 [] printed F P Nm))
+    with (fold_left jstepx (flat_map otest_events (t :: g') ++ [JE EGroupEnd]) (jmk [] 0 0 [] printed F P Nm)).
+  assert (Hne' : map snd (t :: g') <> []) by discriminate.
+  rewrite fold_left_app, tests_fold, (last_group (map snd (t :: g')) [] Hne' Hs), app_nil_r, !N.add_0_l.
   reflexivity.
 Qed.
 
-Lemma segs_fold gs : forall printed F, Forall (fun g => g <> [] /\ same_group g) gs ->
-  fold_left jstep (flat_map seg_events gs) (jmk [] 0 0 [] printed F)
-  = jmk [] 0 0 [] (printed ++ flat_map tests_printed gs) (rev (group_files gs printed) ++ F).
+Lemma segs_fold gs : forall printed F P Nm, Forall (fun g => g <> [] /\ same_group (map snd g)) gs ->
+  fold_left jstepx (flat_map oseg_events gs) (jmk [] 0 0 [] printed F P Nm)
+  = jmk [] 0 0 [] (printed ++ flat_map (fun g => tests_printed (map snd g)) gs) (rev (group_files P gs printed) ++ F)
+        (groups_pkg P gs) (rev (group_names P gs) ++ Nm).
 Proof.
-  induction gs as [|g gs IH]; intros printed F H.
+  induction gs as [|g gs IH]; intros printed F P Nm H.
   - cbn. rewrite app_nil_r. reflexivity.
   - inversion H as [|? ? [Hne Hs] Hr]; subst.
     cbn [flat_map]. rewrite fold_left_app, seg_fold by assumption. rewrite IH by exact Hr.
-    cbn [group_files rev]. rewrite <- !app_assoc. reflexivity.
+    cbn [group_files group_names groups_pkg fold_left rev]. rewrite rev_app_distr, <- !app_assoc. reflexivity.
 Qed.
 
-Theorem run_with_files ts : run_with esc pkg ts = group_files (segments ts) [].
+(* all outside calls of a run in call order answer as if nothing but setPackageName happened in between *)
+Lemma group_names_flat gs : forall P post,
+  group_names P gs ++ ops_names (groups_pkg P gs) post = ops_names P (flat_map fst (concat gs) ++ post).
 Proof.
-  unfold run_with, events_of. rewrite reg_loop_segments.
-  change j_init with (jmk [] 0 0 [] [] []). rewrite segs_fold by apply segments_wf.
-  cbn [j_files jmk]. rewrite app_nil_r. apply rev_involutive.
+  induction gs as [|g gs IH]; intros P post; [reflexivity|].
+  cbn [group_names groups_pkg fold_left concat]. rewrite flat_map_app, <- !app_assoc, ops_names_app. f_equal. apply IH.
+Qed.
+
+Theorem run_with_files ts post :
+  run_with esc ts post = (group_files [] (osegments ts) [], ops_names [] (flat_map fst ts ++ post)).
+Proof.
+  unfold run_with, jevents_of. rewrite fold_left_app, oreg_loop_segments.
+  change j_init with (jmk [] 0 0 [] [] [] [] []). rewrite segs_fold by apply osegments_wf.
+  rewrite op_fold. cbn [j_files j_names jmk]. rewrite !app_nil_r, rev_app_distr, !rev_involutive.
+  rewrite group_names_flat, osegments_concat. reflexivity.
 Qed.
 End WriterFacts.
 
@@ -455,58 +591,105 @@ Proof.
 Qed.
 
 (* ================= spec ================= *)
-Lemma spec_groups_files pkg gs : forall printed,
-  oktext pkg = true -> Forall (fun g => forallb oktest g = true) gs -> oktext printed = true ->
-  spec_groups pkg gs printed (group_files Esc pkg gs printed) = true.
+Lemma ops_expect_names ops : forall P rest, ops_expect P ops (ops_names P ops ++ rest) = Some (ops_pkg P ops, rest).
 Proof.
-  induction gs as [|g gs IH]; intros printed Hp Hg Hpr; [reflexivity|].
-  inversion Hg as [|? ? Hg1 Hg2]; subst.
-  cbn [group_files spec_groups]. rewrite createFileName_spec, bytes_eqb_refl.
-  rewrite (group_roundtrip pkg g printed Hp Hg1 Hpr), suite_ok_tree. cbn [andb].
-  apply IH; try assumption. rewrite oktext_app, Hpr. apply tests_printed_ok. exact Hg1.
+  induction ops as [|[p|q] ops IH]; intros P rest; cbn [ops_expect ops_names ops_pkg app]; [reflexivity | apply IH |].
+  rewrite bytes_eqb_refl. apply IH.
+Qed.
+Lemma ops_pkg_ok ops : forall P, oktext P = true -> forallb okop ops = true -> oktext (ops_pkg P ops) = true.
+Proof.
+  induction ops as [|[p|q] ops IH]; intros P HP H; cbn [ops_pkg]; [exact HP | |];
+    cbn [forallb okop] in H; apply andb_true_iff in H; destruct H as [H1 H2]; auto.
 Qed.
 
-Lemma segments_oktest ts : forallb oktest ts = true -> Forall (fun g => forallb oktest g = true) (segments ts).
+Definition okgroup (g : list otest) : Prop := forallb oktest (map snd g) = true /\ forallb okop (flat_map fst g) = true.
+Lemma okgroup_of g : forallb okotest g = true -> okgroup g.
 Proof.
-  intro H. rewrite <- (segments_concat ts) in H. revert H. generalize (segments ts). intro gs.
+  induction g as [|x g IH]; intro H; [split; reflexivity|].
+  cbn [forallb] in H. apply andb_true_iff in H. destruct H as [Hx Hg]. destruct (IH Hg) as [I1 I2].
+  unfold okotest in Hx. apply andb_true_iff in Hx. destruct Hx as [Ho Ht].
+  split; cbn [map flat_map forallb]; [rewrite Ht; exact I1 | rewrite forallb_app, Ho; exact I2].
+Qed.
+Lemma group_pkg_ok P g : oktext P = true -> okgroup g -> oktext (group_pkg P g) = true.
+Proof. intros HP [_ H]. apply ops_pkg_ok; assumption. Qed.
+
+Lemma spec_groups_files gs : forall pkg printed post rest,
+  oktext pkg = true -> Forall okgroup gs -> oktext printed = true ->
+  spec_groups pkg gs post printed (group_files Esc pkg gs printed) (group_names pkg gs ++ ops_names (groups_pkg pkg gs) post ++ rest)
+  = match rest with [] => true | _ => false end.
+Proof.
+  induction gs as [|g gs IH]; intros pkg printed post rest Hp Hg Hpr.
+  - cbn [spec_groups group_files group_names groups_pkg fold_left app]. rewrite ops_expect_names. reflexivity.
+  - inversion Hg as [|? ? Hg1 Hg2]; subst. pose proof (group_pkg_ok pkg g Hp Hg1) as Hp'. destruct Hg1 as [Hg1 Ho1].
+    cbn [group_files spec_groups group_names groups_pkg fold_left]. rewrite <- app_assoc, ops_expect_names.
+    fold (group_pkg pkg g). rewrite createFileName_spec, bytes_eqb_refl.
+    rewrite (group_roundtrip (group_pkg pkg g) (map snd g) printed Hp' Hg1 Hpr), suite_ok_tree. cbn [andb].
+    apply IH; try assumption. rewrite oktext_app, Hpr. apply tests_printed_ok. exact Hg1.
+Qed.
+
+Lemma segments_okgroup ts : forallb okotest ts = true -> Forall okgroup (osegments ts).
+Proof.
+  intro H. rewrite <- (osegments_concat ts) in H. revert H. generalize (osegments ts). intro gs.
   induction gs as [|g gs IH]; intro H; [constructor|].
-  cbn [concat] in H. rewrite forallb_app in H. apply andb_true_iff in H. destruct H. constructor; auto.
+  cbn [concat] in H. rewrite forallb_app in H. apply andb_true_iff in H. destruct H. constructor; [apply okgroup_of|]; auto.
 Qed.
 
 Theorem run_meets_spec s : valid s = true -> spec s (run s) = true.
 Proof.
-  unfold valid, spec, run. intro H. apply andb_true_iff in H. destruct H as [Hp Ht].
-  rewrite run_with_files. apply spec_groups_files; [exact Hp | apply segments_oktest; exact Ht | reflexivity].
+  unfold valid, spec, run. intro H. apply andb_true_iff in H. destruct H as [Ht Hpost].
+  rewrite run_with_files. cbn [fst snd].
+  replace (ops_names [] (flat_map fst (s_tests s) ++ s_post s))
+    with (group_names [] (osegments (s_tests s)) ++ ops_names (groups_pkg [] (osegments (s_tests s))) (s_post s) ++ [])
+    by (rewrite app_nil_r, group_names_flat, osegments_concat; reflexivity).
+  rewrite spec_groups_files; [reflexivity | reflexivity | apply segments_okgroup; exact Ht | reflexivity].
 Qed.
 
-(* the files of a run, one per segment, each parsing to tree_of *)
-Fixpoint trees_of (pkg : bytes) (gs : list (list test)) (printed : bytes) : list (bytes * option node) :=
+(* the files of a run, one per segment, each named after the package in force when the group ended and parsing to tree_of *)
+Fixpoint trees_of (pkg : bytes) (gs : list (list otest)) (printed : bytes) : list (bytes * option node) :=
   match gs with
   | [] => []
-  | g :: gs' => (expected_filename pkg (group_name g), Some (tree_of pkg g printed)) :: trees_of pkg gs' (printed ++ tests_printed g)
+  | g :: gs' =>
+      (expected_filename (group_pkg pkg g) (group_name (map snd g)), Some (tree_of (group_pkg pkg g) (map snd g) printed))
+      :: trees_of (group_pkg pkg g) gs' (printed ++ tests_printed (map snd g))
   end.
-Lemma roundtrip_files pkg gs : forall printed,
-  oktext pkg = true -> Forall (fun g => forallb oktest g = true) gs -> oktext printed = true ->
+Lemma roundtrip_files gs : forall pkg printed,
+  oktext pkg = true -> Forall okgroup gs -> oktext printed = true ->
   map (fun f => (fst f, xml_parse (snd f))) (group_files Esc pkg gs printed) = trees_of pkg gs printed.
 Proof.
-  induction gs as [|g gs IH]; intros printed Hp Hg Hpr; [reflexivity|].
-  inversion Hg as [|? ? Hg1 Hg2]; subst.
-  cbn [group_files trees_of map fst snd]. rewrite createFileName_spec, (group_roundtrip pkg g printed Hp Hg1 Hpr).
+  induction gs as [|g gs IH]; intros pkg printed Hp Hg Hpr; [reflexivity|].
+  inversion Hg as [|? ? Hg1 Hg2]; subst. pose proof (group_pkg_ok pkg g Hp Hg1) as Hp'. destruct Hg1 as [Hg1 Ho1].
+  cbn [group_files trees_of map fst snd]. rewrite createFileName_spec, (group_roundtrip (group_pkg pkg g) (map snd g) printed Hp' Hg1 Hpr).
   f_equal. apply IH; try assumption. rewrite oktext_app, Hpr. apply tests_printed_ok. exact Hg1.
 Qed.
 Theorem roundtrip s : valid s = true ->
-  map (fun f => (fst f, xml_parse (snd f))) (run s) = trees_of (s_pkg s) (segments (s_tests s)) [].
+  map (fun f => (fst f, xml_parse (snd f))) (fst (run s)) = trees_of [] (osegments (s_tests s)) []
+  /\ snd (run s) = ops_names [] (flat_map fst (s_tests s) ++ s_post s).
 Proof.
-  unfold valid, run. intro H. apply andb_true_iff in H. destruct H as [Hp Ht].
-  rewrite run_with_files. apply roundtrip_files; [exact Hp | apply segments_oktest; exact Ht | reflexivity].
+  unfold valid, run. intro H. apply andb_true_iff in H. destruct H as [Ht Hpost].
+  rewrite run_with_files. cbn [fst snd]. split; [|reflexivity].
+  apply roundtrip_files; [reflexivity | apply segments_okgroup; exact Ht | reflexivity].
 Qed.
+
+(* the package "at the time": the latest setPackageName wins, createFileName calls change nothing *)
+Definition is_set (o : op) : bool := match o with OSetPkg _ => true | OFileName _ => false end.
+Lemma ops_pkg_no_set ops : forall P, existsb is_set ops = false -> ops_pkg P ops = P.
+Proof.
+  induction ops as [|[p|q] ops IH]; intros P H; cbn [ops_pkg]; [reflexivity | discriminate H | apply IH; exact H].
+Qed.
+Lemma ops_pkg_latest before p after P : existsb is_set after = false -> ops_pkg P (before ++ OSetPkg p :: after) = p.
+Proof. intro H. rewrite ops_pkg_app. cbn [ops_pkg]. apply ops_pkg_no_set. exact H. Qed.
+(* a group written with package p: a later group's file carries the package of ITS time, not p (two groups, package changed between) *)
+Lemma filename_follows_package g1 g2 P :
+  map fst (trees_of P [g1; g2] []) =
+  [expected_filename (group_pkg P g1) (group_name (map snd g1)); expected_filename (group_pkg (group_pkg P g1) g2) (group_name (map snd g2))].
+Proof. reflexivity. Qed.
 
 (* ================= the code before the repair of D14 (names copied into attribute values unescaped) ================= *)
 Definition d14_witness : scenario :=
-  {| s_pkg := []; s_tests := [{| t_group := [71]; t_name := [34]; t_file := [102]; t_line := 1; t_ignored := false; t_body := [] |}] |}.
+  {| s_tests := [([], {| t_group := [71]; t_name := [34]; t_file := [102]; t_line := 1; t_ignored := false; t_body := [] |})]; s_post := [] |}.
 Lemma run_old_refuted : ~ (forall s, valid s = true -> spec s (run_old s) = true).
 Proof. intro H. specialize (H d14_witness eq_refl). vm_compute in H. discriminate H. Qed.
-Lemma run_old_illformed : map (fun f => xml_accepts (snd f)) (run_old d14_witness) = [false].
+Lemma run_old_illformed : map (fun f => xml_accepts (snd f)) (fst (run_old d14_witness)) = [false].
 Proof. vm_compute. reflexivity. Qed.
 
 (* the parser does reject what the unrepaired writer produced: a raw '<', or a '&' that starts no reference, inside a value *)
@@ -523,12 +706,22 @@ Proof.
   destruct (bytes_eqb fn nm) eqn:E; [|reflexivity]. apply bytes_eqb_eq in E. contradiction.
 Qed.
 
-(* hypotheses are satisfiable: a run with two groups, a failing, an ignored and a printing test and markup characters everywhere *)
+(* hypotheses are satisfiable: a run with two groups, a failing, an ignored and a printing test and markup characters everywhere;
+   createFileName is asked before any package is set, the package is set late, changed inside the first group, changed again
+   before the second group and once more after the run *)
 Definition example_run : scenario :=
-  {| s_pkg := [112; 38];
-     s_tests := [ {| t_group := [71; 60]; t_name := [116; 34]; t_file := [97; 62]; t_line := 10; t_ignored := false;
-                     t_body := [SPrint [104; 60; 10]; SFail [98; 38] 5 [109; 38; 13; 93; 93; 62]; SFailStop [99] 6 [110]; SPrint [120]] |};
-                  {| t_group := [71; 60]; t_name := [117]; t_file := [97]; t_line := 11; t_ignored := true; t_body := [] |};
-                  {| t_group := [72]; t_name := [118]; t_file := [97]; t_line := 12; t_ignored := false; t_body := [] |} ] |}.
-Lemma example_valid : valid example_run = true /\ length (run example_run) = 2%nat /\ spec example_run (run example_run) = true.
+  {| s_tests := [ ([OFileName [71; 60]; OSetPkg [112; 38]],
+                   {| t_group := [71; 60]; t_name := [116; 34]; t_file := [97; 62]; t_line := 10; t_ignored := false;
+                      t_body := [SPrint [104; 60; 10]; SFail [98; 38] 5 [109; 38; 13; 93; 93; 62]; SFailStop [99] 6 [110]; SPrint [120]] |});
+                  ([OSetPkg [113]; OFileName [72]],
+                   {| t_group := [71; 60]; t_name := [117]; t_file := [97]; t_line := 11; t_ignored := true; t_body := [] |});
+                  ([OSetPkg []],
+                   {| t_group := [72]; t_name := [118]; t_file := [97]; t_line := 12; t_ignored := false; t_body := [] |}) ];
+     s_post := [OFileName [72]; OSetPkg [58]; OFileName [72]] |}.
+Lemma example_valid : valid example_run = true /\ length (fst (run example_run)) = 2%nat /\ spec example_run (run example_run) = true.
+Proof. vm_compute. auto. Qed.
+(* cpputest_G_.xml (no package yet), cpputest_q_H.xml, then the files cpputest_q_G_.xml and cpputest_H.xml, then cpputest_H.xml, cpputest___H.xml *)
+Lemma example_names :
+  snd (run example_run) = [B "cpputest_G_.xml"%string; B "cpputest_q_H.xml"%string; B "cpputest_H.xml"%string; B "cpputest___H.xml"%string]
+  /\ map fst (fst (run example_run)) = [B "cpputest_q_G_.xml"%string; B "cpputest_H.xml"%string].
 Proof. vm_compute. auto. Qed.
